@@ -7,6 +7,7 @@
 package status
 
 import (
+	"errors"
 	"fmt"
 	"sync"
 	"testing"
@@ -47,34 +48,80 @@ func vDiagram(a, b int) bool {
 
 type vEv struct{ inst, st int }
 
-func vRunScript(script []vEv, ninst int) []vEv { return vRunScriptF(script, ninst, nil) }
+func vRunScript(script []vEv, ninst int) []vEv { return vRunScriptO(script, ninst, vRunOpt{}) }
 
-// vRunScriptF: faults[k % len] says whether the watcher FAULTS (panics) right after it has been handed the k-th
-// delivered event.  The reporting goroutine survives (as a net/http or gRPC handler does: the server recovers),
-// reporter.mu is released by the deferred Unlock, and the next report must be judged against the status the
-// watchers have just been told — the model is unchanged by a fault.
 func vRunScriptF(script []vEv, ninst int, faults []bool) []vEv {
+	return vRunScriptO(script, ninst, vRunOpt{faults: faults})
+}
+
+// vRunOpt: ways of driving the reporter that must not change WHICH events are delivered.
+//   faults[k % len]: the watcher FAULTS (panics) right after it has been handed the k-th delivered event; the reporting
+//     goroutine survives (as a net/http or gRPC handler does), reporter.mu is released by the deferred Unlock.
+//   withErrs : error statuses are reported with New*ErrorEvent and a different (every third time: wrapped) error each time.
+//   sameIDs  : all instances have InstanceIDs with IDENTICAL content (distinct pointers): identity is the pointer.
+//   precreate: all events are created up front in REVERSE order (later reports carry older timestamps).
+type vRunOpt struct {
+	faults    []bool
+	withErrs  bool
+	sameIDs   bool
+	precreate bool
+}
+
+func vMkEvent(st, k int, withErrs bool) *componentstatus.Event {
+	if !withErrs || st < 3 || st > 5 || k%3 == 0 {
+		return componentstatus.NewEvent(componentstatus.Status(st))
+	}
+	var err error = errors.New(fmt.Sprintf("cause %d", k))
+	if k%3 == 2 {
+		err = fmt.Errorf("wrapped: %w", err)
+	}
+	switch st {
+	case 3:
+		return componentstatus.NewRecoverableErrorEvent(err)
+	case 4:
+		return componentstatus.NewPermanentErrorEvent(err)
+	}
+	return componentstatus.NewFatalErrorEvent(err)
+}
+
+func vRunScriptO(script []vEv, ninst int, opt vRunOpt) []vEv {
 	ids := make([]*componentstatus.InstanceID, ninst)
 	idx := map[*componentstatus.InstanceID]int{}
 	for i := range ids {
-		ids[i] = componentstatus.NewInstanceID(component.MustNewIDWithName("x", fmt.Sprint(i)), component.KindProcessor, pipeline.NewID(pipeline.SignalLogs))
+		name := fmt.Sprint(i)
+		if opt.sameIDs {
+			name = "same"
+		}
+		ids[i] = componentstatus.NewInstanceID(component.MustNewIDWithName("x", name), component.KindProcessor, pipeline.NewID(pipeline.SignalLogs))
 		idx[ids[i]] = i
 	}
 	var got []vEv
 	rep := NewReporter(func(id *componentstatus.InstanceID, ev *componentstatus.Event) {
 		got = append(got, vEv{idx[id], int(ev.Status())})
-		if len(faults) > 0 && faults[(len(got)-1)%len(faults)] {
+		if len(opt.faults) > 0 && opt.faults[(len(got)-1)%len(opt.faults)] {
 			panic("verif: faulting status watcher")
 		}
 	}, func(error) {})
-	for _, s := range script {
+	evs := make([]*componentstatus.Event, len(script))
+	if opt.precreate {
+		for k := len(script) - 1; k >= 0; k-- {
+			if script[k].st != 8 {
+				evs[k] = vMkEvent(script[k].st, k, opt.withErrs)
+			}
+		}
+	}
+	for k, s := range script {
 		func() {
 			defer func() { _ = recover() }()
 			if s.st == 8 {
 				rep.ReportOKIfStarting(ids[s.inst])
-			} else {
-				rep.ReportStatus(ids[s.inst], componentstatus.NewEvent(componentstatus.Status(s.st)))
+				return
 			}
+			ev := evs[k]
+			if ev == nil {
+				ev = vMkEvent(s.st, k, opt.withErrs)
+			}
+			rep.ReportStatus(ids[s.inst], ev)
 		}()
 	}
 	return got
@@ -103,6 +150,33 @@ func TestVerifC11(t *testing.T) {
 	out := vOpen()
 	defer out.Close()
 	rng := vNewRand(11)
+
+	// (0) every EDGE of the 8 x 8 status square on its own: the shortest history that reaches status a, then a report of b.
+	// The event for b must be delivered exactly when the documented diagram has the edge a -> b (both directions: an
+	// extra edge is an illegal event, a missing edge is a documented status change the watchers never see).  Placed first
+	// so that a wrong table entry is reported with the SHORTEST failing history.
+	vReach := [8][]int{{}, {1}, {1, 2}, {1, 3}, {1, 4}, {1, 5}, {1, 6}, {1, 6, 7}}
+	for a := 0; a < 8; a++ {
+		for b := 0; b < 8; b++ {
+			var script []vEv
+			for _, x := range vReach[a] {
+				script = append(script, vEv{0, x})
+			}
+			script = append(script, vEv{0, b})
+			got := vRunScript(script, 1)
+			term := vPair("0", vPair(vEvList(script), vEvList(got)))
+			out.Case(true, term)
+			vOraclePath(out, term, got, 1)
+			delivered := len(got) == len(vReach[a])+1
+			if len(got) < len(vReach[a]) || (delivered && got[len(got)-1].st != b) || (!delivered && len(got) != len(vReach[a])) {
+				out.Oracle("edge-history-misdelivered", term, fmt.Sprintf("history %v delivered %v", script, got))
+			} else if vDiagram(a, b) && !delivered {
+				out.Oracle("documented-transition-not-delivered", term,
+					fmt.Sprintf("the diagram has %d -> %d but after %v the report of %d produced no event", a, b, vReach[a], b))
+			}
+			out.Stat("edge_histories", 1)
+		}
+	}
 
 	// (1) exhaustive: every report sequence of length <= L over the 9-letter alphabet, 48 sequences
 	// per case, one instance each, randomly interleaved (so the interleaving claim is exercised too).
@@ -152,10 +226,11 @@ func TestVerifC11(t *testing.T) {
 		vOraclePath(out, term, got, len(chunk))
 		// the same script with a watcher that faults after EVERY delivery: exactly the same events must be delivered
 		// (direct oracle only; the model is the same function, so no second correspondence case)
-		gotF := vRunScriptF(script, len(chunk), []bool{true})
+		// ... that are error events with changing causes, created up front in reverse order, for identical-content ids
+		gotF := vRunScriptO(script, len(chunk), vRunOpt{faults: []bool{true}, withErrs: true, sameIDs: true, precreate: true})
 		vOraclePath(out, term, gotF, len(chunk))
 		if fmt.Sprint(gotF) != fmt.Sprint(got) {
-			out.Oracle("watcher-fault-changes-events", term, fmt.Sprintf("with a faulting watcher the reporter delivered %v", gotF))
+			out.Oracle("watcher-fault-changes-events", term, fmt.Sprintf("with a faulting watcher / error events / identical-content ids / reverse event creation the reporter delivered %v", gotF))
 		}
 	}
 
@@ -190,19 +265,36 @@ func TestVerifC11(t *testing.T) {
 			}
 			out.Stat(fmt.Sprintf("report_%d", st), 1)
 		}
-		// 40 % of the scripts run with a watcher that faults after some of the deliveries
-		var faults []bool
+		// ways of driving the reporter that must not matter (see vRunOpt): 40 % faulting watcher, 50 % error events with
+		// changing causes, 30 % identical-content InstanceIDs, 30 % events created up front in reverse order
+		var opt vRunOpt
 		if rng.Intn(100) < 40 {
-			faults = make([]bool, 7)
-			for k := range faults {
-				faults[k] = rng.Intn(3) == 0
+			opt.faults = make([]bool, 7)
+			for k := range opt.faults {
+				opt.faults[k] = rng.Intn(3) == 0
 			}
-			faults[rng.Intn(7)] = true
+			opt.faults[rng.Intn(7)] = true
 			out.Stat("scripts_with_faulting_watcher", 1)
 		}
-		got := vRunScriptF(script, ninst, faults)
+		if opt.withErrs = rng.Intn(100) < 50; opt.withErrs {
+			out.Stat("scripts_with_error_events", 1)
+		}
+		if opt.sameIDs = rng.Intn(100) < 30; opt.sameIDs {
+			out.Stat("scripts_with_identical_instance_ids", 1)
+		}
+		if opt.precreate = rng.Intn(100) < 30; opt.precreate {
+			out.Stat("scripts_with_events_created_in_reverse_order", 1)
+		}
+		got := vRunScriptO(script, ninst, opt)
 		term := vPair("0", vPair(vEvList(script), vEvList(got)))
 		out.Case(len(got) > 1, term)
+		// direct oracle: the hand-written diagram simulation (conc_test.go vSimulate) — a legal report IS delivered, an
+		// illegal one is not, whatever the options
+		if want := vSimulate(script, ninst); !vSameEvents(want, got) {
+			out.Oracle("events-differ-from-diagram-simulation", term,
+				fmt.Sprintf("faults=%v errors=%v identical ids=%v reverse creation=%v: delivered %v, the documented diagram gives %v",
+					len(opt.faults) > 0, opt.withErrs, opt.sameIDs, opt.precreate, got, want))
+		}
 		out.Stat(fmt.Sprintf("events_per_script_%02d", len(got)/5*5), 1)
 		vOraclePath(out, term, got, ninst)
 	}
